@@ -161,4 +161,79 @@ class Intergenic(Harness):
         return cl
 
 
-HARNESSES = [ScanOrfs(), Intergenic()]
+class CrossOriginIntergenic(Harness):
+    """the gaps searched inside an area that spans the origin, with the piece before and the piece after the origin stitched"""
+    pid, name = "C15", "cross_origin_intergenic"
+    functions = [AO + "_find_cross_origin_intergenic", AO + "find_intergenic_areas",
+                 "antismash.common.secmet.record:Record.get_cds_features_within_location"]
+    bound = ("an origin-spanning area on a circular record with G <= 2 genes (simple ones anywhere on the record, or one gene through "
+             "the origin plus a simple one), symbolic coordinates, record length, allowed overlap and minimum length >= 1")
+    outside = "G > 2; minimum length 0 (empty pieces are then reported); completeness of the search"
+    task_paths = 200
+
+    def variants(self, tier):
+        return [{"genes": g} for g in ([], ["s"], ["s", "s"], ["o"], ["s", "o"])]
+
+    def vars(self, var):
+        d = {"n": "int", "pad": "int", "minlen": "int", "x": "int"}
+        d.update(shape_vars("a", "o"))
+        for i, sh in enumerate(var["genes"]):
+            d.update(shape_vars("g%d" % i, sh))
+        return d
+
+    def pre(self, var, v):
+        n = v["n"]
+        c = [shape_pre("a", "o", v, n), 0 <= v["pad"], v["pad"] <= 50, 1 <= v["minlen"], 0 <= v["x"], v["x"] < n]
+        simple = [i for i, sh in enumerate(var["genes"]) if sh == "s"]
+        for i, sh in enumerate(var["genes"]):
+            c.append(shape_pre("g%d" % i, sh, v, n))
+            parts = model_parts("g%d" % i, sh, v)
+            c.append(parts_len(parts) > 2 * v["pad"] + 3)
+            if sh == "o":
+                c += [p[1] - p[0] > v["pad"] for p in parts]
+        for i, j in zip(simple, simple[1:]):
+            c.append(v["g%ds0" % i] <= v["g%ds0" % j])
+            c.append(L.Or(v["g%ds0" % i] != v["g%ds0" % j], v["g%de0" % i] != v["g%de0" % j]))     # two genes, two locations
+        return L.And(c)
+
+    def run(self, var, v):
+        from antismash.common.secmet.features import SubRegion
+        from .common import mkrecord
+        n = v["n"]
+        rec = mkrecord(n, True)
+        for i, sh in enumerate(var["genes"]):
+            rec.add_cds_feature(DummyCDS(location=build("g%d" % i, sh, v), locus_tag="g%d" % i, translation="A"))
+        area = SubRegion(build("a", "o", v), tool="test")
+        areas = ao._find_cross_origin_intergenic(area, rec.get_cds_features(), rec, v["minlen"], v["pad"])
+        return [(cn(a), cn(b)) for a, b in areas]
+
+    def post(self, var, v, out):
+        if is_raised(out):
+            return [("no_raise", False)]
+        n, pad, x = v["n"], v["pad"], v["x"]
+        area = model_parts("a", "o", v)
+        cl = []
+        for a, b in out:
+            # a piece starting before 0 stands for [a + n, n) followed by [0, b)
+            covered = L.Or(L.And(a <= x, x < b), L.And(a < 0, a + n <= x))
+            cl.append(("piece_well_formed_and_long_enough", L.And(a < b, b <= n, -n < a, b - a >= v["minlen"])))
+            cl.append(("piece_inside_the_area", L.Implies(covered, in_parts(x, area))))
+            for i, sh in enumerate(var["genes"]):
+                deep = []
+                for idx, (s_, e_) in enumerate(model_parts("g%d" % i, sh, v)):
+                    lo = s_ if (sh == "o" and idx == 1) else s_ + pad          # the cut at the origin is not an end of the gene
+                    hi = e_ if (sh == "o" and idx == 0) else e_ - pad
+                    deep.append(L.And(lo <= x, x < hi))
+                cl.append(("piece_only_in_gaps_up_to_allowed_overlap", L.Implies(covered, L.Not(L.Or(deep)))))
+        return cl
+
+    def klass(self, var, out):
+        if is_raised(out):
+            return "raised:" + out.etype
+        return "pieces:%d" % min(len(out), 2)
+
+    def expected_classes(self, var):
+        return {"pieces:1"} if not var["genes"] else {"pieces:0", "pieces:1"}
+
+
+HARNESSES = [ScanOrfs(), Intergenic(), CrossOriginIntergenic()]
